@@ -399,7 +399,8 @@ class Ctx:
                     mo = split_cases(so2).get("s")
                     return mo is not None and (canon(mo) if canon else mo) != (canon(ro) if canon else ro)
                 lines = self.shrink_case(sub, harness_args, lines, differs, timeout, removable=removable)
-            self.problem("correspondence", name, lines, "case %s: %s" % (cid, d), bool(spec_exact and r is not None), real=r, model=m)
+            # on a spec-exact stream a disagreement is a failing input; so is an input on which the real code dies or hangs
+            self.problem("correspondence", name, lines, "case %s: %s" % (cid, d), bool(spec_exact), real=r, model=m)
         if len(self.samples) < 6 and cases:
             cid, lines = cases[min(len(cases) - 1, 1)]
             self.samples.append({"stream": name, "input": lines[:12], "real_output": (real.get(cid) or [])[:8]})
@@ -436,7 +437,9 @@ class Ctx:
                     continue
                 cand = cur[:i] + cur[i + chunk:]
                 tries += 1
-                rc, so, se = run_side(HARNESS, [sub] + list(harness_args), "#case s\n" + "\n".join(cand) + "\n", min(timeout, 60))
+                rc, so, se = run_side(HARNESS, [sub] + list(harness_args), "#case s\n" + "\n".join(cand) + "\n", min(timeout, 20))
+                if rc == -9:
+                    return cur  # the real code hangs on a candidate: stop shrinking, every further attempt would cost a timeout
                 ro = split_cases(so).get("s")
                 try:
                     isbad = rc == 0 and ro is not None and bad(cand, ro)
